@@ -134,7 +134,7 @@ type c19Cfg struct {
 	sizes   []int
 	errAt   int
 	total   int64 // -1 = unknown (bar created with 0, SetTotal(-1,true) at EOF)
-	ewma    int   // 0 none, 1 plain, 2 wrapped two levels
+	ewma    int   // 0 none, 1 plain, 2 wrapped two levels, 3 two decorators (plain + wrapped)
 	copyDrv bool
 }
 
@@ -142,9 +142,13 @@ func (c c19Cfg) id(side string) string {
 	return fmt.Sprintf("%s kind=%d len=%d sizes=%v errAt=%d total=%d ewma=%d copy=%v", side, c.kind, c.length, c.sizes, c.errAt, c.total, c.ewma, c.copyDrv)
 }
 
+// second receives the samples of the second decorator when c.ewma == 3
+var c19Second []ioCall
+
 func c19Bar(c c19Cfg, samples *[]ioCall) (*mpb.Progress, *mpb.Bar) {
 	p := mpb.New(mpb.WithOutput(io.Discard))
 	var opts []mpb.BarOption
+	c19Second = c19Second[:0]
 	if c.ewma > 0 {
 		wc := decor.WC{}
 		wc.Init()
@@ -152,7 +156,11 @@ func c19Bar(c c19Cfg, samples *[]ioCall) (*mpb.Progress, *mpb.Bar) {
 		if c.ewma == 2 {
 			depth = 2
 		}
-		opts = append(opts, mpb.AppendDecorators(wrapDepth(ewmaRec{wc, samples}, depth)))
+		ds := []decor.Decorator{wrapDepth(ewmaRec{wc, samples}, depth)}
+		if c.ewma == 3 {
+			ds = append(ds, wrapDepth(ewmaRec{wc, &c19Second}, 1))
+		}
+		opts = append(opts, mpb.AppendDecorators(ds...))
 	}
 	t := c.total
 	if t < 0 {
@@ -275,6 +283,9 @@ func c19Reader(env *SeqEnv, c c19Cfg) {
 		}
 		if cur != wantCur {
 			return out, true, "bar-advance", fmt.Sprintf("bar at %d after %d bytes (total %d)", cur, delivered, c.total)
+		}
+		if c.ewma == 3 && sampleKey(samples, false) != sampleKey(c19Second, false) {
+			return out, true, "ewma-second-decorator", fmt.Sprintf("two moving-average decorators on one bar received different samples: %s vs %s", sampleKey(samples, false), sampleKey(c19Second, false))
 		}
 		if c.ewma > 0 && !c.copyDrv {
 			if sampleKey(samples, false) != sampleKey(wantSamples, false) {
@@ -448,6 +459,9 @@ func c19Writer(env *SeqEnv, c c19Cfg) {
 		if cur != wantCur {
 			return out, true, "bar-advance", fmt.Sprintf("bar at %d after %d bytes (total %d)", cur, accepted, c.total)
 		}
+		if c.ewma == 3 && sampleKey(samples, false) != sampleKey(c19Second, false) {
+			return out, true, "ewma-second-decorator", fmt.Sprintf("two moving-average decorators on one bar received different samples: %s vs %s", sampleKey(samples, false), sampleKey(c19Second, false))
+		}
 		if c.ewma > 0 && (c.total < 0 || int64(accepted) < c.total) {
 			sum := 0
 			for _, s := range samples {
@@ -483,7 +497,7 @@ func c19Chunks(tier string) []SeqChunk {
 								if total == 0 && l != 0 {
 									continue
 								}
-								for ewma := 0; ewma < 3; ewma++ {
+								for ewma := 0; ewma < 4; ewma++ {
 									for _, cp := range []bool{false, true} {
 										c := c19Cfg{kind, l, sz, errAt, total, ewma, cp}
 										if side == "reader" {
@@ -507,7 +521,7 @@ func init() {
 	SeqFamilies["C19"] = c19Chunks
 	register(&Family{
 		Property: "C19",
-		Rule: "payload lengths {0,1,3,6} (thorough 0..6) x read/write size scripts {1,2,4,[0,1,2],[4,1]} (+3 thorough) x injected error at call {none,1,2,3} x wrapped value {plain, +Close, +WriteTo/ReadFrom, both} x total {exact, larger, smaller (cap), unknown then SetTotal(-1,true)} x moving-average decorator {absent, plain, wrapped two levels} x driver {direct calls, io.Copy}; the underlying value advances the virtual clock by a scripted amount inside every call. " +
+		Rule: "payload lengths {0,1,3,6} (thorough 0..6) x read/write size scripts {1,2,4,[0,1,2],[4,1]} (+3 thorough) x injected error at call {none,1,2,3} x wrapped value {plain, +Close, +WriteTo/ReadFrom, both} x total {exact, larger, smaller (cap), unknown then SetTotal(-1,true)} x moving-average decorator {absent, plain, wrapped two levels, two decorators on one bar} x driver {direct calls, io.Copy}; the underlying value advances the virtual clock by a scripted amount inside every call. " +
 			"Oracle: bytes, per-call counts and errors identical on both sides; Close forwarded exactly once (only if the wrapped value has it); the proxy's dynamic type offers WriteTo/ReadFrom iff the wrapped value does and io.Copy uses it; Current == bytes transferred (capped at a known total); the moving-average decorator received exactly the multiset of (n, duration) of the calls made while the bar was running. Every case is also executed on the unmodified package (digest without durations).",
 		Items: func(tier string) []Item { return seqItems("C19", tier) },
 	})
